@@ -258,3 +258,29 @@ var _ = handler.Funcs{}
 var _ = workqueue.DefaultTypedControllerRateLimiter[reconcile.Request]
 var _ context.Context
 var _ client.Object
+
+// FeedChannelQueuesLevel mirrors the eviction queue's channel source: a request is enqueued when a
+// pod is newly present in the queue (Queue.Add sends an event only when the key was not enqueued).
+func (e *Env) FeedChannelQueuesLevel(wasIn map[types.UID]bool, onEnqueued func(*corev1.Pod)) {
+	s := e.S
+	eq, ok := e.Parts["evictionQueue"].(*terminator.Queue)
+	if !ok {
+		return
+	}
+	c := s.Mgr.Get("eviction-queue")
+	for _, o := range s.store.List(gvkPod) {
+		pod := o.(*corev1.Pod)
+		in := eq.Has(pod)
+		if in && !wasIn[pod.UID] {
+			c.Enqueue(reconcile.Request{NamespacedName: keyOf(pod)})
+			if onEnqueued != nil {
+				onEnqueued(pod)
+			}
+		}
+		if in {
+			wasIn[pod.UID] = true
+		} else {
+			delete(wasIn, pod.UID)
+		}
+	}
+}
